@@ -4,8 +4,9 @@
    build_attribute_type, build_elements, build_mixed_content, build_extension, build_content,
    build_content_tree, build_occurs, build_restrictions, build_element, build_value,
    build_enumeration) over the lxml view of a DTD (Spec/Dtd.v).  Faithful, including the
-   defects: a SEQ node's occurrence indicator is never read, and the restrictions of an
-   enclosing OR node override the occurrence of everything below it.  No proofs here. *)
+   defects.  (After the fixes 160d460 / 1017a9f / 5f04a63 in /repo: occurrences of nested particles
+   multiply (merge_occurs), a nested OR keeps the enclosing choice id, and the "&#38;" libxml2
+   leaves in attribute defaults is expanded.)  No proofs here. *)
 From Coq Require Import NArith List Bool Arith Ascii String.
 From XV Require Import Base.Str Base.Eqb Spec.Cm Spec.Dtd Gen.DtdTables.
 Import ListNotations.
@@ -81,7 +82,9 @@ Fixpoint parse_content (c : raw_content) : option dtd_content :=
 
 Definition parse_attribute (a : raw_attr) : option dtd_attribute :=
   match decode dtd_attribute_type_members (ra_type a), decode dtd_attribute_default_members (ra_default a) with
-  | Some t, Some d => Some (mk_dtd_attribute (ra_name a) (ra_prefix a) t d (ra_default_value a) (ra_values a))
+  | Some t, Some d =>
+      (* build_default_value: value.replace("&#38;", "&") if value else value *)
+      Some (mk_dtd_attribute (ra_name a) (ra_prefix a) t d (option_map expand_amp38 (ra_default_value a)) (ra_values a))
   | _, _ => None
   end.
 
@@ -153,7 +156,9 @@ Record klass := mk_klass {
 }.
 
 (* ---------------------------------------------------------------- mappers/dtd.py *)
-Definition kwargs := option (N * N * path).              (* None = {}; an OR node passes min_occurs, max_occurs, choice *)
+(* the **kwargs of build_content: min_occurs, max_occurs (absent = 1), choice (absent = None) *)
+Definition kwargs := (N * N * option path)%type.
+Definition no_kwargs : kwargs := (1%N, 1%N, None).
 
 Definition build_occurs (occur : str) : N * N :=
   if str_eqb occur (lit "ONCE") then (1, 1)%N
@@ -161,23 +166,32 @@ Definition build_occurs (occur : str) : N * N :=
   else if str_eqb occur (lit "MULT") then (0, sys_maxsize)%N
   else (1, sys_maxsize)%N.
 
-(* build_restrictions: params = build_occurs(occur); params.update(kwargs) *)
-Definition build_restrictions (occur : str) (kw : kwargs) : N * N * option path :=
-  match kw with
-  | Some (mn, mx, ch) => (mn, mx, Some ch)
-  | None => let (mn, mx) := build_occurs occur in (mn, mx, None)
-  end.
+(* merge_occurs: the occurrences of nested particles multiply; sys.maxsize absorbs *)
+Definition merge_occurs (occur : str) (kw : kwargs) : kwargs :=
+  let '(mn0, mx0, ch) := kw in
+  let (mn, mx) := build_occurs occur in
+  ((mn * mn0)%N,
+   if (mx =? sys_maxsize)%N || (mx0 =? sys_maxsize)%N then sys_maxsize else (mx * mx0)%N,
+   ch).
 
-Definition build_element (name : str) (r : N * N * option path) : attr :=
+(* build_restrictions = Restrictions( **merge_occurs(occur, kwargs) ) *)
+Definition build_restrictions (occur : str) (kw : kwargs) : kwargs := merge_occurs occur kw.
+
+Definition build_element (name : str) (r : kwargs) : attr :=
   let '(mn, mx, ch) := r in
   mk_attr name tag_ELEMENT None [mk_attr_type name false false] None false (Some mn) (Some mx) ch.
 
-Definition build_value (r : N * N * option path) : attr :=
+Definition build_value (r : kwargs) : attr :=
   let '(mn, mx, ch) := r in
   mk_attr default_attr_name tag_EXTENSION None [mk_attr_type datatype_STRING_qname true false] None false
           (Some mn) (Some mx) ch.
 
 Definition oname (n : option str) : str := match n with Some x => x | None => [] end.
+
+(* an OR node that is not already inside a choice opens one: its members become optional *)
+Definition or_params (occur : str) (kw : kwargs) (p : path) : kwargs :=
+  let '(mn, mx, ch) := merge_occurs occur kw in
+  match ch with Some _ => (mn, mx, ch) | None => (0%N, mx, Some p) end.
 
 Fixpoint build_content (c : dtd_content) (kw : kwargs) (p : path) : list attr :=
   match c with
@@ -186,12 +200,8 @@ Fixpoint build_content (c : dtd_content) (kw : kwargs) (p : path) : list attr :=
         (match lft with Some l => build_content l kw' (p ++ [false]) | None => [] end)
         ++ (match rgt with Some r => build_content r kw' (p ++ [true]) | None => [] end) in
       if str_eqb type (lit "ELEMENT") then [build_element (oname name) (build_restrictions occur kw)]
-      else if str_eqb type (lit "SEQ") then tree kw                   (* `occur` is not read *)
-      else if str_eqb type (lit "OR") then
-        tree (match kw with
-              | Some k => Some k                                      (* params.update( **kwargs ) *)
-              | None => Some (0%N, snd (build_occurs occur), p)
-              end)
+      else if str_eqb type (lit "SEQ") then tree (merge_occurs occur kw)
+      else if str_eqb type (lit "OR") then tree (or_params occur kw p)
       else [build_value (build_restrictions occur kw)]
   end.
 
@@ -240,10 +250,10 @@ Definition build_class (e : dtd_element) : klass :=
   match de_content e with
   | Some c =>
       if str_eqb (de_type e) (lit "ELEMENT") then
-        mk_klass (de_qname e) tag_ELEMENT false (de_ns_map e) [] (attrs ++ build_content c None []) inner
+        mk_klass (de_qname e) tag_ELEMENT false (de_ns_map e) [] (attrs ++ build_content c no_kwargs []) inner
       else if str_eqb (de_type e) (lit "MIXED") then
         let (mx, c') := build_mixed_content c in
-        mk_klass (de_qname e) tag_COMPLEX_TYPE mx (de_ns_map e) [] (attrs ++ build_content c' None []) inner
+        mk_klass (de_qname e) tag_COMPLEX_TYPE mx (de_ns_map e) [] (attrs ++ build_content c' no_kwargs []) inner
       else if str_eqb (de_type e) (lit "ANY") then
         mk_klass (de_qname e) tag_ELEMENT false (de_ns_map e) [mk_extension tag_EXTENSION datatype_ANY_TYPE_qname true] attrs inner
       else base
